@@ -33,7 +33,7 @@ func TestC16Unrelated(t *testing.T) {
 			if rapid.Bool().Draw(t, "allLayout") {
 				layout = genfont.LayoutAll
 			}
-			c := genfont.Gen(genfont.Opts{MaxGlyphs: 12, MinGlyphs: 2, Layout: layout}).Draw(t, "font")
+			c := genfont.Gen(genfont.Opts{MaxGlyphs: 12, MinGlyphs: 2, Layout: layout, NilMaxp: true}).Draw(t, "font")
 			fonts[i] = c.Font
 			refs[i] = fontcmp.DeepCopy(c.Font)
 			fmt.Fprintf(&hist, "font %d: %s\n", i, c)
